@@ -555,7 +555,8 @@ fn format_declarator(
 
             output.push('[');
             if let Some(expr) = array_size {
-                format_expression(expr, output, context)?;
+                // The array size is not a full expression - a comma expression needs its parentheses
+                format_list_expression(expr, output, context)?;
             }
             output.push(']');
             format_attributes(attributes, false, false, output, context)?;
